@@ -306,7 +306,12 @@ class Session:
             case 0x01:
                 self.handle_tls_client_hello(record)
             case 0x02:
-                self.handle_tls_server_hello(record)
+                try:
+                    self.handle_tls_server_hello(record)
+                except Exception as e:
+                    # malformed ServerHello, unknown version or incomplete secrets: leave the session undecrypted
+                    logging.warning(f"Could not process ServerHello: {e}")
+                    self.can_decrypt = False
             # ignore the others for now (in TLS 1.3 in application Records)
             case _:
                 try:
